@@ -582,6 +582,37 @@ func run(c *core.Ctx) {
 			}
 		}
 	}
+	// plain JSON-format sets (no extension map, no sudo block, no algorithm numbers) whose strings hold characters
+	// that JSON and other quoting conventions spell differently: every C0 control, DEL, C1 controls, soft hyphen,
+	// line / paragraph separators, byte-order mark, non-characters, private use, unassigned planes, astral code points,
+	// quotes, backslashes, the HTML-sensitive characters
+	oddChars := []rune{0x7f, 0x80, 0x85, 0x9f, 0xa0, 0xad, 0x2028, 0x2029, 0xfeff, 0xfffd, 0xfffe, 0xffff, 0xe000, 0x10000, 0x1f600, 0xe0001, 0xf0000,
+		0x10fffe, 0x10ffff, 0x30000, '"', '\\', '/', '<', '>', '&', '\'', '`', '%', 0x2b7f}
+	for ch := rune(0); ch < 0x20; ch++ {
+		oddChars = append(oddChars, ch)
+	}
+	for i, ch := range oddChars {
+		for field := 0; field < 3; field++ {
+			if !c.Thorough() && (i+field)%3 != 0 && ch >= 0x20 && ch != 0x7f && ch < 0xe0000 {
+				continue
+			}
+			a := &message.Attributes{IfVer: core.Pick(r, 7, 8), Username: "user", Hostname: "host.com", SSHClientVersion: "8.1",
+				HardKey: i%2 == 0, Touch2SSH: i%3 == 0}
+			odd := core.Pick(r, "", "a", "xy") + string(ch) + core.Pick(r, "", "b", "z9")
+			switch field {
+			case 0:
+				a.Username = odd
+			case 1:
+				a.Hostname = odd
+			default:
+				a.SSHClientVersion = odd
+			}
+			if i%5 == 4 {
+				a.Exts = map[string]interface{}{}
+			}
+			emitRound("plain-odd-characters", a)
+		}
+	}
 	// required fields missing one at a time, both formats
 	for _, ifv := range []int{7, 6} {
 		for miss := 0; miss < 8; miss++ {
